@@ -241,16 +241,15 @@ def run(ctx: Context) -> None:
         cm = [c for c in calls_in(am) if callee(ctx, am, c) == f"{ARAKAWA}.c_mask_from_centres"]
         ok = len(cm) == 1 and len(cm[0].args) == 3 and norm_text(cm[0].args[2]) == 'self.dataset.coords' and all(ctx.flow(am).resolve(r.value) is cm[0] for r in am.returns())
         ctx.check('R09.5', ok, "the Arakawa clip mask carries the dataset's coordinates", am, cm[0] if cm else am.node)
-        cf = ctx.func(f"{ARAKAWA}.c_mask_from_centres")
-        dsc = [c for c in calls_in(cf) if (callee(ctx, cf, c) or '').endswith('xarray.Dataset')]
-        ok = False
-        if len(dsc) == 1:
-            dv = kwarg(dsc[0], 'data_vars')
-            ok = isinstance(dv, ast.Dict) and {const_value(k, None) for k in dv.keys} == {'face_mask', 'back_mask', 'left_mask', 'node_mask'} \
-                and norm_text(kwarg(dsc[0], 'coords') or ast.Constant(None)) == cf.params[2]
-            for k, v in zip(dv.keys, dv.values) if isinstance(dv, ast.Dict) else []:
-                kind = const_value(k, '').replace('_mask', '')
-                ok = ok and isinstance(v, ast.Call) and norm_text(v.args[0]) == f"{kind}_mask" and norm_text(kwarg(v, 'dims') or ast.Constant(None)) == f"{cf.params[1]}[ArakawaCGridKind.{kind}]"
+        from .common import arakawa_mask_table
+        table = arakawa_mask_table(ctx)
+        cf = table['_fi']
+        dsc = [table['_call']] if table['_call'] is not None else []
+        names = {k for k in table if not str(k).startswith('_')}
+        ok = bool(dsc) and names == {'face_mask', 'back_mask', 'left_mask', 'node_mask'} and table['_coords'] == ('param', cf.params[2])
+        for k in names:
+            kind = str(k).replace('_mask', '')
+            ok = ok and table[k][0] is not None and table[k][1] == f"{cf.params[1]}[ArakawaCGridKind.{kind}]"
         ctx.check('R09.5', ok, "one mask per Arakawa grid kind, each on that kind's own dimensions", cf, dsc[0] if dsc else cf.node)
         for cq in (f"{GRID}.CFGrid.apply_clip_mask", f"{ARAKAWA}.ArakawaC.apply_clip_mask"):
             fi = ctx.func(cq)
